@@ -33,7 +33,12 @@ extern "C" {
 }
 
 pub const REPO: &str = "/repo";
-pub const VERIF: &str = "/verif";
+/// Root of the verification tree: `VERIF_ROOT` (exported by bin/check: the directory the check was
+/// started from, so that a snapshot run keeps its evidence, replays and scratch to itself), else /verif.
+pub fn verif_root() -> &'static str {
+    static ROOT: std::sync::OnceLock<String> = std::sync::OnceLock::new();
+    ROOT.get_or_init(|| std::env::var("VERIF_ROOT").ok().filter(|s| !s.is_empty()).unwrap_or_else(|| "/verif".to_string()))
+}
 pub const PHONETIC: &str = "avro_phonetic";
 
 pub fn probhat() -> String {
@@ -43,7 +48,7 @@ pub fn real_db() -> String {
     format!("{}/data", REPO)
 }
 pub fn fixture(name: &str) -> String {
-    format!("{}/fixtures/{}", VERIF, name)
+    format!("{}/fixtures/{}", verif_root(), name)
 }
 
 /// Everything a `Config` carries, in harness terms.
@@ -719,14 +724,14 @@ impl Ctx {
 
 /// Per-worker scratch directory under /verif/.build/run/<pid>/<name>; returns the XDG value.
 pub fn scratch_xdg(name: &str) -> String {
-    let p = PathBuf::from(format!("{}/.build/run/{}/{}", VERIF, std::process::id(), name));
+    let p = PathBuf::from(format!("{}/.build/run/{}/{}", verif_root(), std::process::id(), name));
     let _ = std::fs::remove_dir_all(&p);
     std::fs::create_dir_all(p.join("openbangla-keyboard")).expect("create scratch dir");
     p.to_string_lossy().to_string()
 }
 
 pub fn cleanup_scratch() {
-    let p = PathBuf::from(format!("{}/.build/run/{}", VERIF, std::process::id()));
+    let p = PathBuf::from(format!("{}/.build/run/{}", verif_root(), std::process::id()));
     let _ = std::fs::remove_dir_all(p);
 }
 
